@@ -28,7 +28,7 @@ MIN_EVENTS = {'quick': {'splits': 80, 'script_runs': 40, 'submodule_comparisons'
 # flagged input classes (known findings); switched on by probes when the finding is marked fixed
 FLAG_LINE_COMMENT_END = False   # D15
 FLAG_OMIT_IGNORE = False        # D16
-ENDS = ['\n', '', ' ', '\n\n', ' /* tail */', '\t\n']
+ENDS = ['\n', '', ' ', '\n\n', ' /* tail */', '\t\n', '  // trailing line comment\n', '\n// comment line of its own\n', ' // c\n\n']
 
 
 def plan(tier, seed):
